@@ -1,4 +1,6 @@
+pub mod alloc;
 pub mod ctx;
+pub mod vals;
 pub mod rng;
 pub mod engines;
 
@@ -9,6 +11,9 @@ pub fn main_entry() {
     if argv.is_empty() {
         eprintln!("usage: tpv <engine> [--tier T --seed N --shard i --nshards n --out f --replay f --budget-s S]");
         std::process::exit(2);
+    }
+    if argv[0] == "c10-child" {
+        std::process::exit(engines::c10::child(&argv[1..]));
     }
     let args = Args::parse(&argv);
     ctx::install_panic_hook();
